@@ -80,10 +80,24 @@ class Lock:
 
 
 # ----------------------------------------------------------------------------- Lean side
-def lean_build():
-    """lake build (incremental). Returns (ok, log)."""
+def lean_build(props=None):
+    """lake build (incremental) of what ONE check needs: the Props module(s) of its property and the
+    driver executable - not the whole library, so that a proof broken by a change that concerns another
+    property does not break this check.  All translators are re-run first so that no generated file is
+    left over from an earlier run on a different tree (a failing translator keeps its old output; the
+    owning check reports that itself).  Returns (ok, log)."""
+    tdir = os.path.join(HERE, 'tools', 'translate')
+    if os.path.isdir(tdir):
+        for t in sorted(os.listdir(tdir)):
+            if t.endswith('.py') and t != 'cxx_expr.py':    # cxx_expr.py is a library module
+                sh(['python3', os.path.join(tdir, t)])
+    if props is None:
+        targets = ''
+    else:
+        pfs = [props] if isinstance(props, str) else list(props)
+        targets = ' '.join(f'PikaVerif.Props.{p}' for p in pfs) + ' driver'
     with Lock('lake'):
-        r = sh('lake build 2>&1', cwd=LEAN)
+        r = sh(f'lake build {targets} 2>&1', cwd=LEAN)
     return r.returncode == 0, r.stdout[-6000:]
 
 
